@@ -192,8 +192,22 @@ def filterOfFields (fs : List String) : Option Filter :=
           else none
     | _ => none
 
+/-- a natural field written with a byte width other than 1, 2, 4 or 8 ("C=5/3"): not a
+    non-negative integer of the NDN packet format — the ControlParameters element does not decode
+    (generated decoder after repair F-13e: `ErrFormat`) -/
+def hasBadWidth (fs : List String) : Bool :=
+  fs.any fun f =>
+    match f.splitOn "=" with
+    | [k, v] =>
+      if k == "N" || k == "S" || k == "U" || k == "L" || k.startsWith "u" then false
+      else match v.splitOn "/" with
+        | [_, w] => !(w == "1" || w == "2" || w == "4" || w == "8")
+        | _ => false
+    | _ => false
+
 def parseParamsTok (tok : String) : Option Params :=
   if tok.startsWith "raw:" then some .undecodable
+  else if !(tok.startsWith "q:") && !(tok.startsWith "ap:") && hasBadWidth (tok.splitOn ";") then some .undecodable
   else if tok == "q:e" then some (.filter {})
   else if tok.startsWith "q:" then (filterOfFields ((tok.drop 2).toString.splitOn ";")).map .filter
   else if tok == "ap:data" then some (.app .data)
